@@ -953,6 +953,14 @@ where
     }
 }
 
+/// Moves the elements of an owned array into a `Vec`, in logical order.
+///
+/// `Array::into_raw_vec` hands out the whole allocation: for an array that was sliced out of a
+/// larger one (e.g. with `slice_move`) this includes the elements outside of the array.
+fn into_vec_in_order<A, D: Dimension>(array: Array<A, D>) -> Vec<A> {
+    array.into_iter().collect()
+}
+
 impl<F, E, I: TargetDim> Dataset<F, E, I> {
     /// Split dataset into two disjoint chunks
     ///
@@ -993,7 +1001,7 @@ impl<F, E, I: TargetDim> Dataset<F, E, I> {
         let target_names = self.target_names().to_vec();
 
         // split records into two disjoint arrays
-        let mut array_buf = self.records.into_raw_vec();
+        let mut array_buf = into_vec_in_order(self.records);
         let second_array_buf = array_buf.split_off(n1 * nfeatures);
 
         let first = Array2::from_shape_vec((n1, nfeatures), array_buf).unwrap();
@@ -1002,7 +1010,7 @@ impl<F, E, I: TargetDim> Dataset<F, E, I> {
         // split targets into two disjoint Vec
         let dim1 = self.targets.raw_dim().nsamples(n1);
         let dim2 = self.targets.raw_dim().nsamples(n2);
-        let mut array_buf = self.targets.into_raw_vec();
+        let mut array_buf = into_vec_in_order(self.targets);
         let second_array_buf = array_buf.split_off(dim1.size());
 
         let first_targets = Array::from_shape_vec(dim1, array_buf).unwrap();
@@ -1010,7 +1018,7 @@ impl<F, E, I: TargetDim> Dataset<F, E, I> {
 
         // split weights into two disjoint Vec
         let second_weights = if self.weights.len() == n1 + n2 {
-            let mut weights = self.weights.into_raw_vec();
+            let mut weights = into_vec_in_order(self.weights);
 
             let weights2 = weights.split_off(n1);
             self.weights = Array1::from(weights);
